@@ -774,6 +774,18 @@ def sig_ops(node):
     return f"{node.op}({','.join(tname(k.ufl) for k in node.kids)})->{tname(node.ufl)}"
 
 
+def _numbers_clash(obj):
+    comps = list(obj.components()) if type(obj) is FormSum else [obj]
+    for c in comps:
+        try:
+            nums = [a.number() for a in c.arguments()]
+        except Exception:
+            continue
+        if len(nums) != len(set(nums)):
+            return True
+    return False
+
+
 def mechanism(case, node, what, obj, args=None, missing=None, extra=None):
     """Short stable name of the cause where the monitor can tell; otherwise the operator/operand-type signature."""
     from ufl.argument import BaseArgument
@@ -793,6 +805,10 @@ def mechanism(case, node, what, obj, args=None, missing=None, extra=None):
                 lens = set()
             if lens == {len(node.slots)} and len(args) > len(node.slots):
                 return "components-number-the-same-slot-differently"
+        if _numbers_clash(obj):
+            # the same defect seen from the other side: two different slots carry the same argument number (an Action
+            # keeps the numbers of its right operand), so merging by number loses or misplaces a slot
+            return "components-number-the-same-slot-differently"
     if fam == "derivative" and what == "arguments-space" and args is not None and node.slots and len(args) == len(node.slots) >= 2:
         got = [a.ufl_function_space() for a in args]
         want = [case.m.slot_space(s_) for s_ in node.slots]
